@@ -367,8 +367,10 @@ func runC07(r *rep.R) {
 			r.Violate(k, msg, "c07", c07Case{Layer: l.Name, Input: in}, nil)
 		case msg == "lenient":
 			r.Outcome("reserved-bits-set:not-judged")
+			r.Count("not-judged:"+l.Name, 1)
 		default:
 			r.Outcome("fields-equal-or-rejected")
+			r.Count("judged:"+l.Name, 1)
 			if r.WantSample() && idx%211 == 0 {
 				r.Sample(map[string]any{"layer": l.Name, "input_hex": fmt.Sprintf("%x", in)})
 			}
